@@ -33,7 +33,7 @@ def floors(tier):
             'histories': 60, 'threaded_runs': 12, 'threaded_steps': 600, 'yields_injected': 2000,
             'permuted_key_order_steps': 400, 'registered_function_steps': 400, 'same_name_registered_steps': 100,
             'symbolic_call_steps': 60, 'raising_steps': 60, 'wrapper_steps': 500, 'snapshots_verified': 4000,
-            'cache_hits': 600, 'cache_misses': 600, 'distinct_miss_orderings': 10}
+            'cache_hits': 600, 'cache_misses': 600, 'distinct_miss_orderings': 10, 'race_rounds': 300}
 
 
 def plan(tier, seed):
@@ -63,6 +63,15 @@ def plan(tier, seed):
             cfg['opts'] = {'wrapper': w}
         H.append({'mode': 'threads', 'cfg': cfg, 'hseed': rng.randrange(10 ** 9), 'steps': 25,
                   'threads': (2, 4, 8)[i % 3], 'p_yield': rng.choice((0.02, 0.05, 0.15))})
+    # cold-start races: several threads use the same operator for the first time on a fresh algebra, with operands holding the
+    # same blades in different key orders (the situation in which generated names collide), many short rounds
+    for i in range(16 if tier == 'quick' else 256):
+        cfg = dict(rng.choice(base[:6]))
+        w = ('wraps', 'identity', 'wraps', None)[i % 4]
+        if w:
+            cfg['opts'] = {'wrapper': w}
+        H.append({'mode': 'race', 'cfg': cfg, 'hseed': rng.randrange(10 ** 9), 'rounds': 40 if tier == 'quick' else 60,
+                  'threads': (2, 3, 4)[i % 3], 'p_yield': rng.choice((0.1, 0.3, 0.5))})
     rng.shuffle(H)
     return [{'histories': part} for part in gen.split(H, 16 if tier == 'quick' else 64)]
 
@@ -281,6 +290,8 @@ def run_shard(shard, ctx):
                 continue
             if h['mode'] == 'seq':
                 run_sequential(h, ctx, ge)
+            elif h['mode'] == 'race':
+                run_race(h, ctx, ge)
             else:
                 run_threaded(h, ctx, ge)
     finally:
@@ -446,3 +457,67 @@ def run_threaded(h, ctx, ge):
     if ctx.counters.get('threaded_runs', 0) % 4 == 1:
         ctx.sample({'config': name, 'threads': T, 'p_yield': h['p_yield'], 'line_events': yi.lines, 'yields': yi.yields,
                     'miss_ordering_head': list(ordering[:12])})
+
+
+def run_race(h, ctx, ge):
+    cfg = h['cfg']
+    name = gen.cfg_str(cfg)
+    T = h['threads']
+    rng = random.Random(h['hseed'])
+    hid = [name, h['hseed'], f'race-T{T}']
+    if ctx.only_case is not None and ctx.only_case[:3] != hid:
+        return
+    oracle = Oracle(cfg)
+    for rnd in range(h['rounds']):
+        if ctx.out_of_time():
+            return
+        alg = instrument(gen.make_algebra(cfg))
+        regs = regfuncs(alg)
+        canon = list(alg.canon2bin.values())
+        ks = gen.random_subset(rng, canon, 3, 2)
+        op = rng.choice(['gp', 'gp', 'op', 'ip', 'add', 'sub', 'sw', 'cp', 'reverse', 'sq', 'pg'])
+        steps = []
+        for t in range(T):
+            kx, ky = gen.permuted(rng, ks), gen.permuted(rng, ks)
+            vals = lambda k: [str(Fr(gen.small_int(rng, -3, 3, nonzero=True))) for _ in k]
+            if op in ('sq', 'pg'):
+                st = {'kind': 'reg', 'fn': op, 'keys': [list(kx), list(ky)], 'vals': [vals(kx), vals(ky)]}
+            else:
+                st = {'kind': 'op', 'op': op, 'via': 'method', 'keys': [list(kx), list(ky)], 'vals': [vals(kx), vals(ky)]}
+            steps.append(st)
+        results = [[] for _ in range(T)]
+        barrier = threading.Barrier(T)
+        errors = []
+
+        def worker(t):
+            try:
+                barrier.wait(timeout=20)
+                for rep in range(2):
+                    results[t].append(execute(alg, regs, steps[t])[:2])
+            except BaseException as e:
+                errors.append(repr(e))
+        threads = [threading.Thread(target=worker, args=(t,), name=f'r{t}') for t in range(T)]
+        with monitors.YieldInjector(h['hseed'] + rnd, h['p_yield']) as yi:
+            for th in threads:
+                th.start()
+            for th in threads:
+                th.join(STEP_TIMEOUT * 2)
+        if any(th.is_alive() for th in threads) or errors:
+            ctx.count('race_rounds_inconclusive')
+            continue
+        ctx.count('race_rounds')
+        ctx.count('yields_injected', yi.yields)
+        ctx.count('line_events', yi.lines)
+        for t in range(T):
+            st2, exp = ctx.guarded(STEP_TIMEOUT * 2, oracle.expect, steps[t])
+            if st2 != 'ok':
+                continue
+            for rep, got in enumerate(results[t]):
+                tally(ctx, cfg, steps[t], got)
+                ctx.count('steps_compared_with_fresh_algebra')
+                ctx.count('threaded_steps')
+                ctx.case([name, 'race', step_key('', steps[t])])
+                if not same(got, exp):
+                    report(ctx, cfg, hid + [rnd, t, rep], alg, regs, steps, t, got, exp, mode=f'cold-start race, {T} threads',
+                           extra={'all_thread_key_orders': [s_['keys'] for s_ in steps]})
+    ctx.count('race_histories')
